@@ -586,6 +586,14 @@ def input_pool(rnd, schema):
     return ["ni", "hao", "nihao", "zhongguo", "women", "shijie", "wo", "de", "nihaoshijie", "womende", "nini"] + ABBR_INPUTS["luna_pinyin"][:4]
 
 
+# (input of five or more syllables, its first four syllables): a phrase learned for the long input is offered as a
+# word completion (candidate type "completion", user_dictionary.cc: predict_word_from_depth = 4) when the prefix is typed
+DELCOMP = {
+    "vscript": [("badagubodu", "badagubo"), ("gudubabodaga", "gudubabo"), ("dadabogugu", "dadabogu")],
+    "luna_pinyin": [("woaibeijingtiananmen", "woaibeijing"), ("nihaoshijiedajiahao", "nihaoshijie")],
+}
+
+
 def gen_c10_history(rnd, schema, steps, pool):
     """script lines + plan [(kind, input, first line index, last line index)]"""
     L = ["S 1 %s" % schema]
@@ -604,6 +612,13 @@ def gen_c10_history(rnd, schema, steps, pool):
             L += ["L 1 %s" % x, "K 1 %s" % x, "Q 1 %d" % rnd.choice([0, 0, 1, 2, 3]), "F 1", "L 1 %s" % x]
             if rnd.random() < 0.5:
                 L += ["D 1", "S 1 %s" % schema, "L 1 %s" % x]
+        elif schema in DELCOMP and rnd.random() < 0.10:
+            # learn a long phrase (assembled from partial selections), type a prefix of four syllables, delete the phrase
+            # from THAT list (it is offered there as a word completion), then list both inputs again
+            x, prefix = rnd.choice(DELCOMP[schema])
+            kind = "delcomp"
+            L += ["L 1 %s" % x, "K 1 %s" % x, "Q 1 %d" % rnd.choice([0, 1, 2, 3]), "F 1", "L 1 %s" % x,
+                  "L 1 %s" % prefix, "K 1 %s" % prefix, "Y 1", "R 1", "L 1 %s" % prefix, "L 1 %s" % x]
         elif r < 0.42:
             kind = "select"
             L += ["L 1 %s" % x, "K 1 %s" % x, "P 1 %d" % rnd.choice([0, 0, 1, 1, 2, 3, 4, 5, 7]), "F 1", "L 1 %s" % x]
@@ -629,9 +644,15 @@ def gen_c10_history(rnd, schema, steps, pool):
         elif r < 0.82:
             kind = "delete"
             L += ["L 1 %s" % x, "K 1 %s" % x, "X 1 %d" % rnd.choice([0, 0, 0, 1, 1, 2, 3]), "R 1", "L 1 %s" % x]
-        elif r < 0.90:
+        elif r < 0.86:
             kind = "undo"
             L += ["L 1 %s" % x, "K 1 %s" % x, "F 1", "K 1 {BackSpace}", "L 1 %s" % x]
+        elif r < 0.90:
+            # a commit that teaches nothing (a punctuation mark) between the commit and the BackSpace: the undo window
+            # belongs to the later commit, the phrase stays learned
+            kind = "punctbs"
+            sel = "Q 1 %d" % rnd.choice([0, 1, 2, 3]) if rnd.random() < 0.65 else "P 1 %d" % rnd.choice([0, 1, 2, 3, 5])
+            L += ["L 1 %s" % x, "K 1 %s" % x, sel, "F 1", "K 1 %s" % rnd.choice([",", "."]), "K 1 {BackSpace}", "L 1 %s" % x]
         else:
             kind = "restart"
             L += ["D 1", "Z %s" % ("vscript" if schema == "vscript" else "vtable" if schema == "vtable" else "luna_pinyin"),
